@@ -107,7 +107,9 @@ def compress(ctx, lb, c, tables=False):
     data = c['data']
     desc = dict(family=c['fam'], size=len(data), level=c['level'], ultra=c['ultra'], workers=c['w'], env=c['env'])
     argv = [lb, '-%d' % c['level'], '-n', str(c['w'])] + (['-u'] if c['ultra'] else [])
-    r = core.run(argv, stdin=data, env=c['env'], timeout=300)
+    if c.get('feed'):
+        desc['stdin_feed'] = c['feed']
+    r = core.run(argv, stdin=data, env=c['env'], timeout=300, feed=c.get('feed'))
     files = {'input.bin': data[:4000000]}
     info = dict(desc, argv=argv)
     if lbz.bad_ending(ctx, r, 'compress %s' % desc, files, info, 'compress:'):
